@@ -24,17 +24,18 @@ def tla_set(xs):
     return "{" + ", ".join('"%s"' % x for x in xs) + "}"
 
 
-def cfg_text(kind, reuse, nmods, maxreq, slots=4, f64=FORGE64, f22=FORGE22, f32=FORGE32):
+def cfg_text(kind, reuse, nmods, maxreq, slots=4, f64=FORGE64, f22=FORGE22, f32=FORGE32, policy="none"):
     common = """CONSTANTS
   Slots = {%s}
   Devs = {"dA", "dB"}
   Reuse = %s
   NMods = %d
+  Policy = "%s"
   Forge64 = %s
   Forge22 = %s
   Forge32 = %s
   MaxReq = %d
-""" % (", ".join(str(i) for i in range(1, slots + 1)), "TRUE" if reuse else "FALSE", nmods,
+""" % (", ".join(str(i) for i in range(1, slots + 1)), "TRUE" if reuse else "FALSE", nmods, policy,
        tla_set(f64), tla_set(f22), tla_set(f32), maxreq)
     invs = "INVARIANTS TypeOK InOrder ErrorsHaveNoEffect NoTokenNoService FinalKills EffectsNeedProof ProvenOnlyByHonest64 ForgedRefused RedirectNeedsRegistration\n"
     if kind == "trace":
@@ -65,12 +66,12 @@ def to_action(rec):
     raise Inconclusive("unknown record kind %r" % k)
 
 
-def generate(ctx, reuse, nmods, num, maxreq, seed, f64, f22, f32):
+def generate(ctx, reuse, nmods, num, maxreq, seed, f64, f22, f32, policy="none"):
     """TLC-generated behaviours for one world configuration."""
-    wd = ctx.sub("gen-%s-%d-%d" % (reuse, nmods, seed))
+    wd = ctx.sub("gen-%s-%d-%s-%d" % (reuse, nmods, policy, seed))
     cfgp = os.path.join(wd, "Server_Gen.cfg")
     with open(cfgp, "w") as f:
-        f.write(cfg_text("gen", reuse, nmods, maxreq, slots=3, f64=f64, f22=f22, f32=f32))
+        f.write(cfg_text("gen", reuse, nmods, maxreq, slots=3, f64=f64, f22=f22, f32=f32, policy=policy))
     r = ctx.tlc("Server_Gen", cfgp, simulate=num, depth=4 * maxreq, workers=1, seed=seed, quiet=True)
     behs = ctx.behaviours(r)
     seen, out = set(), []
@@ -99,9 +100,10 @@ def validate(ctx, prop, events, label):
             cur["evs"].append(ev)
     groups = {}
     for r in runs:
-        groups.setdefault((bool(r["reset"]["reuse"]), int(r["reset"]["nmods"])), []).append(r)
+        pol = (r["reset"].get("cfg") or {}).get("policy") or "none"
+        groups.setdefault((bool(r["reset"]["reuse"]), int(r["reset"]["nmods"]), pol), []).append(r)
     total = 0
-    for (reuse, nmods), rs in sorted(groups.items()):
+    for (reuse, nmods, pol), rs in sorted(groups.items()):
         pending = list(rs)
         rejected = 0
         while pending:
@@ -113,12 +115,12 @@ def validate(ctx, prop, events, label):
                 for ev in r["evs"]:
                     lines.append(ev)
                     index.append((r, ev))
-            wd = ctx.sub("tv-%s-%s-%d-%d" % (label, reuse, nmods, rejected))
+            wd = ctx.sub("tv-%s-%s-%d-%s-%d" % (label, reuse, nmods, pol, rejected))
             tp = os.path.join(wd, "trace.in.ndjson")
             write_ndjson(tp, lines)
             cfgp = os.path.join(wd, "Server_Trace.cfg")
             with open(cfgp, "w") as f:
-                f.write(cfg_text("trace", reuse, nmods, 0))
+                f.write(cfg_text("trace", reuse, nmods, 0, policy=pol))
             ok, hwm, res = validate_with_cfg(ctx, tp, cfgp, len(lines))
             if ok:
                 total += len(pending)
@@ -162,29 +164,61 @@ def validate_with_cfg(ctx, trace_path, cfg_path, nlines):
     return hwm >= nlines, hwm, r
 
 
+KEX_FOR = {
+    "P256": ["ECDH256"], "P384": ["ECDH384"],
+    "RSA2048RESTR": ["DHKEXid14", "ASYMKEX2048"], "RSAPSS2048": ["DHKEXid14", "ASYMKEX2048"],
+    "RSAPKCS3072": ["DHKEXid15", "ASYMKEX3072"], "RSAPSS3072": ["DHKEXid15", "ASYMKEX3072"],
+}
+# cipher suite ids: A128GCM=1, A192GCM=2, A256GCM=3,
+# COSEAES128CBC=-17760703, COSEAES128CTR=-17760704, COSEAES256CBC=-17760705, COSEAES256CTR=-17760706
+CIPHERS = [1, 2, 3, -17760703, -17760704, -17760705, -17760706]
+
+
+def worlds(ctx, focus, rnd):
+    """World configurations (key kind, reuse, modules, ttl policy, kex, cipher) for this run."""
+    quick = ctx.quick()
+    kinds = ["P256", "P384"] if quick else ["P256", "P384", "RSA2048RESTR", "RSAPKCS3072", "RSAPSS2048", "RSAPSS3072"]
+    if quick and focus in (64, 22, 32):
+        kinds = ["P256", rnd.choice(["P384", "RSA2048RESTR", "RSAPSS2048"])]
+    combos = [(False, 1, "none"), (True, 0, "none")]
+    if not quick:
+        combos += [(True, 1, "none"), (False, 0, "none"), (False, 2, "none")]
+    if focus == 22:
+        combos += [(False, 1, "fixed"), (False, 1, "zero")]
+    elif not quick:
+        combos += [(False, 1, "fixed")]
+    out = []
+    for k in kinds:
+        for (reuse, nmods, pol) in combos:
+            out.append({"kind": k, "reuse": reuse, "nmods": nmods, "policy": pol,
+                        "kex": rnd.choice(KEX_FOR[k]), "cipher": rnd.choice(CIPHERS) if (focus == 64 or not quick) else 1})
+    return out, combos
+
+
 def run(ctx, prop, focus):
     """focus: which forged-message family gets the weight (64 / 22 / 32 / None)."""
     quick = ctx.quick()
     rnd = random.Random(ctx.seed)
     ctx.build_vh()
     # 1. design-level check
-    mc = ctx.model_check("Server", "Server_MC.cfg" if quick else "Server_MC_big.cfg", timeout=3000)
-    # 2. generated behaviours, several world configurations
-    kinds = ["P256"] if quick else ["P256", "P384", "RSA2048RESTR", "RSAPSS3072"]
-    combos = [(False, 1), (True, 1), (False, 0), (False, 2)] if not quick else [(False, 1), (True, 0)]
+    ctx.model_check("Server", "Server_MC.cfg" if quick else "Server_MC_big.cfg", timeout=3000)
+    # 2. TLC-generated behaviours, executed in several world configurations
+    ws, combos = worlds(ctx, focus, rnd)
     f64 = FORGE64 if focus in (64, None) else FORGE64[:2]
     f22 = FORGE22 if focus in (22, None) else FORGE22[:2]
     f32 = FORGE32 if focus in (32, None) else FORGE32[:2]
     behaviours = []
     ngen = 40 if quick else 400
-    for (reuse, nmods) in combos:
-        acts = generate(ctx, reuse, nmods, ngen, 12 if quick else 16, ctx.seed * 7 + len(behaviours), f64, f22, f32)
-        cap = 150 if quick else 2500
+    per_combo_cap = 120 if quick else 1500
+    for ci, (reuse, nmods, pol) in enumerate(combos):
+        acts = generate(ctx, reuse, nmods, ngen, 12 if quick else 16, ctx.seed * 7 + ci, f64, f22, f32, policy=pol)
         rnd.shuffle(acts)
-        for a in acts[:cap]:
-            kind = kinds[len(behaviours) % len(kinds)]
-            behaviours.append({"cfg": {"kind": kind, "reuse": reuse, "nmods": nmods, "seed": rnd.getrandbits(62)}, "actions": a})
-    ctx.log("generated %d distinct behaviours from TLC" % len(behaviours))
+        mine = [w for w in ws if (w["reuse"], w["nmods"], w["policy"]) == (reuse, nmods, pol)]
+        for i, a in enumerate(acts[:per_combo_cap]):
+            cfg = dict(mine[i % len(mine)])
+            cfg["seed"] = rnd.getrandbits(62)
+            behaviours.append({"cfg": cfg, "actions": a})
+    ctx.log("generated %d distinct behaviours from TLC (%d world configurations)" % (len(behaviours), len(ws)))
     if not behaviours:
         raise Inconclusive("TLC generated no behaviours")
     wd = ctx.sub("replay")
@@ -200,25 +234,35 @@ def run(ctx, prop, focus):
     # 3. random driver (code -> spec)
     rpath = os.path.join(wd, "random.ndjson")
     rb = os.path.join(wd, "random-behaviours.json")
-    cfgs = [{"kind": k, "reuse": r, "nmods": m} for k in kinds for (r, m) in combos]
     forge = {"64": f64, "22": f22, "32": f32}
-    ctx.run_vh(["srv-random", "-n", 120 if quick else 3000, "-len", 16 if quick else 24, "-seed", ctx.seed,
-                "-cfgs", json.dumps(cfgs), "-forge", json.dumps(forge), "-out", rpath, "-behaviours", rb], timeout=3000)
+    ctx.run_vh(["srv-random", "-n", 160 if quick else 3000, "-len", 16 if quick else 24, "-seed", ctx.seed,
+                "-cfgs", json.dumps(ws), "-forge", json.dumps(forge), "-focus", focus or 0, "-out", rpath, "-behaviours", rb], timeout=3000)
     evs2 = read_ndjson(rpath)
     with open(rb) as f:
         _attach(evs2, json.load(f))
     n2 = validate(ctx, prop, evs2, "rnd")
-    nev = sum(1 for e in evs + evs2 if e["kind"] not in ("reset", "unexecutable"))
+    real = [e for e in evs + evs2 if e["kind"] not in ("reset", "unexecutable")]
     ctx.cov["traces_validated_against_impl"] += n1 + n2
-    ctx.cov["evaluations"] += nev
-    kinds_seen = set((e["kind"], e.get("t"), e.get("tok"), e.get("b"), e.get("resp")) for e in evs + evs2 if e["kind"] not in ("reset", "unexecutable"))
+    ctx.cov["evaluations"] += len(real)
+    kinds_seen = set((e["kind"], e.get("t"), e.get("tok"), e.get("b"), e.get("resp")) for e in real)
     ctx.cov["distinct_nontrivial"] += len(kinds_seen)
-    ctx.cov["rule"] = "one evaluation = one HTTP exchange executed against the real handler and validated against Server_Trace.tla; distinct = distinct (kind, type, token class, body class, response) tuples observed"
-    ctx.sample({"recorded_event": next(e for e in evs2 if e["kind"] == "honest")})
+    ctx.cov["rule"] = ("one evaluation = one HTTP exchange executed against the real handler and validated against Server_Trace.tla; "
+                       "distinct = distinct (kind, type, token class, body class, response) tuples observed")
+    hon = [e for e in evs2 if e["kind"] == "honest"]
+    if hon:
+        ctx.sample({"recorded_event": hon[0]})
+    forged = [e for e in real if e["kind"] == "forged"]
+    ctx.notes["forged_exchanges"] = len(forged)
+    ctx.notes["forged_atoms_seen"] = sorted(set("%s:%s" % (e["t"], e["b"]) for e in forged))
+    ctx.notes["effects_seen"] = sorted(set(x.split(":")[0] for e in real for x in e.get("fx", [])))
+    ctx.notes["world_configurations"] = len(ws)
     ctx.notes["runs_from_tlc"] = n1
     ctx.notes["runs_from_random_driver"] = n2
-    ctx.assumptions += ["TLC 1.8.0 and the CommunityModules Json module", "the harness projection (response type, effect journal of the sqlite decorator, session-row probe) is faithful",
-                        "honest clients are the library's own client roles; forged messages are built with the harness' own CBOR tree codec"]
+    if focus and not forged:
+        raise Inconclusive("no forged exchange was executed (vacuous run)")
+    ctx.assumptions += ["TLC 1.8.0 and the CommunityModules Json module",
+                        "the harness projection (response type, effect journal of the sqlite decorator, session-row probe) is faithful",
+                        "honest clients are the library's own client roles; forged messages are built with the harness' own CBOR tree codec and signed with harness-owned keys"]
     return "model_checking"
 
 
